@@ -62,6 +62,20 @@ func requestTableGuards(ctx *Ctx, r *Result) (*RequestTable, bool) {
 		r.undecided("R0.1", "path-count", fmt.Sprintf("only %d request paths found, expected several hundred", len(rt.Paths)))
 		ok = false
 	}
+	// paths no accepted configuration can take: once CI-1 (allow-all ⇒ not
+	// credentialed) is established, "the tree is empty" and "credentialed"
+	// exclude each other, whether or not the code spells the second test out
+	if ok && ctx.CI1() == "" {
+		pruned := *rt
+		pruned.Paths = nil
+		for _, rp := range rt.Paths {
+			if rp.Is(aEmpty) && rp.Is(aCred) {
+				continue
+			}
+			pruned.Paths = append(pruned.Paths, rp)
+		}
+		return &pruned, ok
+	}
 	return rt, ok
 }
 
